@@ -143,10 +143,10 @@ CHECKS = {
  "C20": dict(
   engine="sched",
   category="exploration",
-  text="Cooperative scheduler over real threads using the wallet_lock! hook: exactly one thread runs between wallet-lock acquisitions; one refresh/scan thread plus 1..3 operation threads (init, lock, receive, finalize, cancel, refresh) and the node event 'block accepted'. R + one lock-holding operation: every schedule enumerated; multi-section operations preemption-bounded (1 quick / 2 thorough) plus constructed three-preemption schedule families around the block event (part pat and saved regression schedules); larger configurations sampled over the choice sequence. The projected final state and every operation's result class must equal those of some serial order of the same operations from the same on-disk start state. A running thread that neither parks nor finishes within 60 s => exit 2 with the schedule saved.",
+  text="Cooperative scheduler over real threads using the wallet_lock! hook: exactly one thread runs between wallet-lock acquisitions; one refresh/scan thread plus 1..3 operation threads (init, lock, receive, finalize, cancel, refresh) and the node events 'block accepted' and 'node unreachable' (threads of their own). R + one lock-holding operation: every schedule enumerated; multi-section operations preemption-bounded (1 quick / 2 thorough) plus constructed three-preemption schedule families around the block event (part pat and saved regression schedules); part dwn: the node becomes unreachable before every lock section of R (all schedules) and, with preemption bound 1, together with a block and a second refresh landing inside R (refresh/scan return values not compared there, state and other results are); larger configurations sampled over the choice sequence. The projected final state and every operation's result class must equal those of some serial order of the same operations from the same on-disk start state. A running thread that neither parks nor finishes within 60 s => exit 2 with the schedule saved.",
   design_ref="DESIGN.md §4 C20",
   technique="owned-schedule exploration (exhaustive for small configurations, proptest-sampled otherwise) + serialisability oracle against all serial orders",
-  note=TRUST + "; interleavings only at wallet-lock acquisitions (all wallet state is behind that mutex); node-unreachable events and the Updater::run timing loop are not covered"),
+  note=TRUST + "; interleavings only at wallet-lock acquisitions (all wallet state is behind that mutex); a node that comes back during the concurrent phase and the Updater::run timing loop are not covered"),
 }
 
 hooks_commits = subprocess.run(["git", "-C", "/repo", "log", "--format=%h %s"], stdout=subprocess.PIPE, text=True).stdout.splitlines()
